@@ -47,8 +47,8 @@ func wtGen(seed uint64, tier string) {
 	proto.Reply("wt 40 -1 sig 2")
 	proto.Reply("wt 3000 80 sig 1")
 	for i := 0; i < 3; i++ {
-		proto.Reply("wt 3000 -2 sig 0")
-		proto.Reply("wt 3000 -2 bcast 0")
+		proto.Reply("wt 1500 -2 sig 0")
+		proto.Reply("wt 1500 -2 bcast 0")
 	}
 	for i := 0; i < n; i++ {
 		t := proto.Pick(r, []int{0, 1, 5, 20, 60, 150, 3000})
@@ -96,21 +96,46 @@ func wtOne(w []string) string {
 				mu.Unlock()
 			}()
 		}
-		mu.Lock()
 		if sigAt == -2 {
-			// a signaller that is ALREADY contending for the mutex when the wait starts: it gets the lock the moment
-			// the wait releases it and signals at once (the waiter must have been registered by then)
-			go func() {
-				mu.Lock()
-				if w[3] == "bcast" {
-					cond.Broadcast()
-				} else {
-					cond.Signal()
+			// rounds with a signaller that is ALREADY contending for the mutex when the wait starts: it takes the lock in
+			// the instant the wait releases it and signals at once (the waiter must have been registered by then)
+			worst := time.Duration(0)
+			for round := 0; round < 40; round++ {
+				m2 := new(sync.Mutex)
+				c2 := sync.NewCond(m2)
+				started := make(chan struct{})
+				m2.Lock()
+				go func() {
+					close(started)
+					for !m2.TryLock() {
+					}
+					if w[3] == "bcast" {
+						c2.Broadcast()
+					} else {
+						c2.Signal()
+					}
+					m2.Unlock()
+				}()
+				<-started
+				time.Sleep(100 * time.Microsecond)
+				t1 := time.Now()
+				machine.WaitTimeout(c2, uint64(timeout))
+				if d := time.Since(t1); d > worst {
+					worst = d
 				}
-				mu.Unlock()
-			}()
-			time.Sleep(30 * time.Millisecond)
+				m2.Unlock()
+				if worst > time.Duration(wtSlackMs)*time.Millisecond {
+					break
+				}
+			}
+			if worst > time.Duration(wtSlackMs)*time.Millisecond {
+				res <- "held late"
+			} else {
+				res <- "held prompt"
+			}
+			return
 		}
+		mu.Lock()
 		t0 := time.Now()
 		machine.WaitTimeout(cond, uint64(timeout))
 		el := time.Since(t0)
@@ -138,9 +163,6 @@ func wtOne(w []string) string {
 		bound := timeout
 		if sigAt >= 0 && sigAt < timeout {
 			bound = sigAt
-		}
-		if sigAt == -2 {
-			bound = 0
 		}
 		p := "prompt"
 		if el > time.Duration(bound+wtSlackMs)*time.Millisecond {
